@@ -25,7 +25,18 @@ trait BM: Copy + core::fmt::Debug + core::fmt::Display + PartialEq + Hash + 'sta
     const NAME: &'static str;
     fn mk(l: &[bool]) -> Self;
     fn ctor(path: &str, l: &[bool]) -> Option<Self>;
-    fn variants(l: &[bool]) -> Vec<Self> { vec![Self::mk(l)] }
+    /// the same mask from several producers: the constructor, and lane-by-lane `set` starting from all-false and from all-true
+    fn variants(l: &[bool]) -> Vec<Self> {
+        let mut r = vec![Self::mk(l)];
+        r.extend(Self::by_set(l));
+        r
+    }
+    fn by_set(l: &[bool]) -> Vec<Self> {
+        let mut a = Self::mk(&vec![false; Self::N]);
+        let mut b = Self::mk(&vec![true; Self::N]);
+        for i in 0..Self::N { a.set_(i, l[i]); b.set_(i, l[i]); }
+        vec![a, b]
+    }
     fn bools(self) -> Vec<bool>;
     fn u32s(self) -> Vec<u32>;
     fn bitmask_(self) -> u32;
@@ -89,18 +100,22 @@ type V4Mask = BVec4A;
 impl_bm!(BVec4A, 4, bvec4a, [0, 1, 2, 3], variants = |l: &[bool]| {
     // the same mask produced by a comparison of vectors
     let f = |b: bool| if b { 1.0f32 } else { 0.0 };
-    vec![BVec4A::new(l[0], l[1], l[2], l[3]),
+    let mut r = vec![BVec4A::new(l[0], l[1], l[2], l[3]),
          Vec4::new(f(l[0]), f(l[1]), f(l[2]), f(l[3])).cmpeq(Vec4::ONE),
-         Vec4::new(f(l[0]), f(l[1]), f(l[2]), f(l[3])).cmpgt(Vec4::splat(0.5))]
+         Vec4::new(f(l[0]), f(l[1]), f(l[2]), f(l[3])).cmpgt(Vec4::splat(0.5))];
+    r.extend(<BVec4A as BM>::by_set(l));
+    r
 });
 impl_bm!(BVec3A, 3, bvec3a, [0, 1, 2], variants = |l: &[bool]| {
     // the same visible lanes with the hidden fourth lane false / true / whatever new() leaves
     let f = |b: bool| if b { 1.0f32 } else { 0.0 };
     let one = Vec3A::from_vec4(Vec4::ONE);
-    vec![BVec3A::new(l[0], l[1], l[2]),
+    let mut r = vec![BVec3A::new(l[0], l[1], l[2]),
          Vec3A::from_vec4(Vec4::new(f(l[0]), f(l[1]), f(l[2]), 0.0)).cmpeq(one),
          Vec3A::from_vec4(Vec4::new(f(l[0]), f(l[1]), f(l[2]), 1.0)).cmpeq(one),
-         Vec3A::from_vec4(Vec4::new(f(l[0]), f(l[1]), f(l[2]), f32::NAN)).cmpne(Vec3A::from_vec4(Vec4::new(0.0, 0.0, 0.0, 0.0)))]
+         Vec3A::from_vec4(Vec4::new(f(l[0]), f(l[1]), f(l[2]), f32::NAN)).cmpne(Vec3A::from_vec4(Vec4::new(0.0, 0.0, 0.0, 0.0)))];
+    r.extend(<BVec3A as BM>::by_set(l));
+    r
 });
 
 fn bools(v: &Value) -> Vec<bool> {
